@@ -331,6 +331,10 @@ class Driver(GenericAdapter):
             for a, b in raw + [(raw[0][0] if raw else K(1), ("one", "more"))]:
                 plus.add(a, b)
             e("plus_one_omd", plus)
+            dup = self.cls()
+            for a, b in raw + raw[-1:]:
+                dup.add(a, b)
+            e("plus_dup_last_omd", dup)
             minus = self.cls()
             for a, b in raw[:-1]:
                 minus.add(a, b)
@@ -412,12 +416,12 @@ def record_traces(n, length, seed, U=5, cls=None, label=None):
                 n_ = "add"
             if size > 9 and n_ in ("add", "addlist", "update_extend", "update_extend_self"):
                 n_ = rng.choice(["pop", "delitem", "poplast"])
-            k = rng.randint(1, U)
+            k = rng.randint(1, U) if rng.random() < 0.9 else 0          # 0: the key None
             op = {"op": n_, "k": 0, "v": 0, "d": 0, "arg": [], "vs": []}
             if n_ in ("add", "setitem", "addlist", "delitem", "setdefault", "pop", "popall"):
                 op["k"] = k
             if n_ in ("add", "setitem"):
-                op["v"] = rng.randint(1, 3)
+                op["v"] = rng.randint(1, 3) if rng.random() < 0.85 else 0      # 0: the value None
             if n_ == "addlist":
                 op["vs"] = [rng.randint(1, 3) for _ in range(rng.randint(0, 3))]
             if n_ in ("pop", "popall", "poplast"):
@@ -463,7 +467,7 @@ def sanitize(traces):
         out["todict_t"] = v if isinstance(v, list) and all(isinstance(p, list) and len(p) == 2 and isinstance(p[0], int) and isinstance(p[1], list) for p in v) else [[-7, [-7]]]
         eq = o.get("eq") or {}
         out["eq"] = {k: (eq.get(k) if isinstance(eq.get(k), bool) else (k == "extra_key_dict"))   # flipped = never matches
-                     for k in ("same_omd", "reordered_omd", "plus_one_omd", "minus_one_omd", "diffval_omd", "same_dict", "renamed_key_dict", "diffval_dict", "missing_key_dict", "extra_key_dict", "non_mapping")}
+                     for k in ("same_omd", "reordered_omd", "plus_one_omd", "plus_dup_last_omd", "minus_one_omd", "diffval_omd", "same_dict", "renamed_key_dict", "diffval_dict", "missing_key_dict", "extra_key_dict", "non_mapping")}
         if not all(isinstance(eq.get(k), bool) for k in out["eq"]):
             out["eq"]["same_omd"] = False
         out["wf"] = o.get("wf") is True
